@@ -833,59 +833,42 @@ Example view_prefix_names : exists o,
   plain_app [2%positive].
 Proof. eexists. split; [vm_compute; reflexivity|]. split; [reflexivity|exists 2%positive; reflexivity]. Qed.
 
-(* ------------------------------------------------------------------ enum items (DrawEnum) *)
-From Coq Require Import ZArith Permutation.
+(* ------------------------------------------------------------------ enum items (DrawEnum, since cdeb394) *)
+From Coq Require Import ZArith Permutation Sorted.
 
-Lemma insert_z_perm : forall x l, Permutation (insert_z x l) (x :: l).
+Lemma insert_item_perm : forall x l, Permutation (insert_item x l) (x :: l).
 Proof.
-  induction l as [|y l IH]; cbn [insert_z]; [reflexivity|].
-  destruct (Z.leb x y); [reflexivity|]. rewrite IH. apply perm_swap.
+  induction l as [|y l IH]; cbn [insert_item]; [reflexivity|].
+  destruct (Z.leb (snd x) (snd y)); [reflexivity|]. rewrite IH. apply perm_swap.
 Qed.
-Lemma sort_z_perm : forall l, Permutation (sort_z l) l.
-Proof. induction l as [|x l IH]; cbn [sort_z]; [reflexivity|]. rewrite insert_z_perm, IH. reflexivity. Qed.
+Lemma sort_items_perm : forall l, Permutation (sort_items l) l.
+Proof. induction l as [|x l IH]; cbn [sort_items]; [reflexivity|]. rewrite insert_item_perm, IH. reflexivity. Qed.
 
-Lemma val_to_name_absent : forall items v cur, ~ In v (map snd items) -> val_to_name items v cur = cur.
-Proof.
-  induction items as [|[n v'] items IH]; intros v cur H; cbn [val_to_name]; [reflexivity|].
-  cbn [map snd In] in H. destruct (Z.eqb v v') eqn:E; [apply Z.eqb_eq in E; subst; exfalso; apply H; left; reflexivity|].
-  apply IH. intros Hin. apply H. right. exact Hin.
-Qed.
-Lemma val_to_name_unique : forall items n v cur, NoDup (map snd items) -> In (n, v) items -> val_to_name items v cur = n.
-Proof.
-  induction items as [|[n' v'] items IH]; intros n v cur Hnd Hin; [destruct Hin|]. cbn [val_to_name].
-  cbn [map snd] in Hnd. inversion Hnd as [|? ? Hni Hnd']; subst. destruct Hin as [[= -> ->]|Hin].
-  - rewrite Z.eqb_refl. apply val_to_name_absent. exact Hni.
-  - apply IH; assumption.
-Qed.
+(* enum items, full (repeated values included): every enumerator is listed exactly once - as a multiset the item
+   lines are the enumerator names *)
+Theorem enum_items_exact : forall items, Permutation (enum_lines items) (map (fun x => IItem (fst x)) items).
+Proof. intro items. unfold enum_lines. apply Permutation_map. apply sort_items_perm. Qed.
 
-(* always: as many item lines as enumerators *)
 Lemma enum_lines_length : forall items, length (enum_lines items) = length items.
-Proof.
-  intro items. unfold enum_lines. rewrite map_length. rewrite (Permutation_length (sort_z_perm _)). apply map_length.
-Qed.
+Proof. intro items. rewrite (Permutation_length (enum_items_exact items)). apply map_length. Qed.
 
-(* enumerators with pairwise different values: every enumerator is listed exactly once (as a multiset, the item
-   lines are the enumerator names) *)
-Theorem enum_items_exact_partial : forall items, NoDup (map snd items) ->
-  Permutation (enum_lines items) (map (fun x => IItem (fst x)) items).
+(* ... in the order of their values *)
+Definition val_le (x y:positive * Z) : Prop := (snd x <= snd y)%Z.
+Lemma insert_item_sorted : forall x l, Sorted val_le l -> Sorted val_le (insert_item x l).
 Proof.
-  intros items Hnd. unfold enum_lines.
-  rewrite (Permutation_map (fun v => IItem (val_to_name items v 1%positive)) (sort_z_perm (map snd items))).
-  rewrite map_map. apply Permutation_refl'. apply map_ext_in. intros [n v] Hin. cbn [fst snd].
-  rewrite (val_to_name_unique items n v _ Hnd Hin). reflexivity.
+  induction l as [|y l IH]; intros H; cbn [insert_item]; [repeat constructor|].
+  destruct (Z.leb (snd x) (snd y)) eqn:E.
+  - constructor; [exact H|constructor; apply Z.leb_le; exact E].
+  - apply Z.leb_gt in E. inversion H as [|? ? Hs Hh]; subst. constructor; [apply IH; exact Hs|].
+    destruct l as [|z l]; cbn [insert_item]; [constructor; unfold val_le; lia|].
+    destruct (Z.leb (snd x) (snd z)); constructor; [unfold val_le; lia|inversion Hh; assumption].
 Qed.
-Example enum_items_example : NoDup (map snd [(1%positive, 2%Z); (2%positive, 1%Z); (3%positive, 5%Z)]) /\
-  enum_lines [(1%positive, 2%Z); (2%positive, 1%Z); (3%positive, 5%Z)] = [IItem 2%positive; IItem 1%positive; IItem 3%positive].
-Proof. split; [repeat constructor; cbn; intuition discriminate|reflexivity]. Qed.
+Theorem enum_items_sorted : forall items, Sorted val_le (sort_items items).
+Proof. induction items as [|x l IH]; cbn [sort_items]; [constructor|apply insert_item_sorted; exact IH]. Qed.
 
-(* two enumerators with one value: one of them is not listed, the other is listed twice *)
-Theorem enum_items_exact_refuted : exists es o a n1 n2,
-  draw None es = Ok o /\ In {| e_app := [2%positive]; e_name := [4%positive]; e_def := DEnum [(n1, 5%Z); (n2, 5%Z)] |} es /\
-  n1 <> n2 /\ o = [IClass a [2%positive; 4%positive] HEnum; IItem n2; IItem n2; IEnd].
-Proof.
-  exists [ {| e_app := [2%positive]; e_name := [4%positive]; e_def := DEnum [(1%positive, 5%Z); (2%positive, 5%Z)] |} ].
-  eexists. exists 0, 1%positive, 2%positive. split; [vm_compute; reflexivity|]. split; [left; reflexivity|]. split; [discriminate|reflexivity].
-Qed.
+Example enum_items_example :
+  enum_lines [(1%positive, 5%Z); (2%positive, 1%Z); (3%positive, 5%Z)] = [IItem 2%positive; IItem 1%positive; IItem 3%positive].
+Proof. reflexivity. Qed.
 
 (* ------------------------------------------------------------------ round 3: two more refutations *)
 (* a table of an application whose name contains '.': DrawRelation takes the first chunk of the name for the
